@@ -214,7 +214,14 @@ class Machine(RuleBasedStateMachine):
             v = rnd.choice(SEARCH_POOL)
             return lit(v), v
         if spec_type == 'key':
-            v = rnd.choice(KEYS)
+            present = sorted(first_container) if isinstance(first_container, dict) else []
+            nulls = [k for k in present if first_container[k] is None]
+            if nulls and rnd.random() < 0.5:
+                v = rnd.choice(nulls)          # a key that is present and holds null (not the same as an absent key)
+            elif present and rnd.random() < 0.5:
+                v = rnd.choice(present)
+            else:
+                v = rnd.choice(KEYS)
             return lit(v), v
         if spec_type == 'index':
             length = len(first_container) if isinstance(first_container, (list, str)) else 3
@@ -236,7 +243,7 @@ class Machine(RuleBasedStateMachine):
             v = rnd.choice(STRING_POOL[:6])
             return lit(v), v
         if c < 0.55:
-            return rnd.choice([('null', None), ('true', True), ('false', False)])
+            return rnd.choice([('null', None), ('null', None), ('true', True), ('false', False)])
         if c < 0.8:
             n = rnd.choice([x for x in ARRAYS + OBJECTS + SAVED if isinstance(m.get(x), (list, dict))] or ['a0'])
             return n, m[n]
